@@ -1846,3 +1846,82 @@ func init() {
 		},
 	})
 }
+
+func init() {
+	register(&Rule{
+		Name:  "DATA-COPY-COMPLETE",
+		Floor: 1,
+		Doc:   "copying a segment's data out (segment.Data.WriteTo - an io.Copy over the file for file-backed data) ends silently when a read hits the end of the file early: io.EOF is the copy loop's normal end, so a shortened file yields (partial, nil). A function that reports success after such a copy has compared the number of bytes copied with the data's length (Data.Len()): without the edge on which the two are equal no return of a nil error is reachable from the copy. Success is never reported for a truncated image",
+		Run: func(c *Ctx, scope string, r *Report) {
+			for _, fn := range c.srcFns {
+				for _, b := range fn.Blocks {
+					for _, ins := range b.Instrs {
+						call, ok := ins.(*ssa.Call)
+						if !ok || call.Call.StaticCallee() == nil || funcFullName(call.Call.StaticCallee()) != "github.com/blugelabs/bluge_segment_api.(*Data).WriteTo" {
+							continue
+						}
+						key := fnName(fn) + "/data-copy"
+						n := tupleParts(call)[0]
+						dataPath := accessPath(stripConv(call.Call.Args[0]))
+						// the comparison of the count with Len() of the same data
+						var eqFrom, eqTo *ssa.BasicBlock
+						isCount := func(v ssa.Value) bool { return n != nil && stripConv(v) == ssa.Value(n) }
+						isLen := func(v ssa.Value) bool {
+							lc, ok := stripConv(v).(*ssa.Call)
+							if !ok || lc.Call.StaticCallee() == nil || funcFullName(lc.Call.StaticCallee()) != "github.com/blugelabs/bluge_segment_api.(*Data).Len" {
+								return false
+							}
+							return accessPath(stripConv(lc.Call.Args[0])) == dataPath
+						}
+						for _, blk := range fn.Blocks {
+							ifi, ok := blk.Instrs[len(blk.Instrs)-1].(*ssa.If)
+							if !ok {
+								continue
+							}
+							bo, ok := ifi.Cond.(*ssa.BinOp)
+							if !ok || (bo.Op != token.EQL && bo.Op != token.NEQ) {
+								continue
+							}
+							if (isCount(bo.X) && isLen(bo.Y)) || (isCount(bo.Y) && isLen(bo.X)) {
+								eqFrom, eqTo = blk, blk.Succs[0]
+								if bo.Op == token.NEQ {
+									eqTo = blk.Succs[1]
+								}
+							}
+						}
+						// a return of a nil error reachable from the copy without the equal edge?
+						success := ""
+						seen := map[*ssa.BasicBlock]bool{b: true}
+						work := []*ssa.BasicBlock{b}
+						for len(work) > 0 {
+							blk := work[len(work)-1]
+							work = work[:len(work)-1]
+							if ret, ok := blk.Instrs[len(blk.Instrs)-1].(*ssa.Return); ok {
+								if k := len(ret.Results); k > 0 && isErrorType(ret.Results[k-1].Type()) && isNilConst(resolveLoad(ret.Results[k-1])) {
+									success = c.pos(retPos(ret, blk))
+								}
+							}
+							for _, s := range blk.Succs {
+								if blk == eqFrom && s == eqTo {
+									continue
+								}
+								if !seen[s] {
+									seen[s] = true
+									work = append(work, s)
+								}
+							}
+						}
+						switch {
+						case eqFrom == nil:
+							r.bad(key, fnName(fn), c.pos(call.Pos()), "the number of bytes copied out of the segment data is never compared with the data's length: a file that ends early (io.EOF inside the copy) is reported as a successful, truncated persist")
+						case success != "":
+							r.bad(key, fnName(fn), c.pos(call.Pos()), "success is returned at "+success+" on a path that does not pass the comparison of the copied byte count with the data's length")
+						default:
+							r.ok(key, fnName(fn), c.pos(call.Pos()), "success only where the copied byte count equals Data.Len()")
+						}
+					}
+				}
+			}
+		},
+	})
+}
